@@ -641,3 +641,46 @@ class ProgGen:
       else:
         out += "%s = %s\n" % (n, rng.choice(self.classes + ["int", "List[int]", "Optional[str]"]))
     return out
+
+
+def signature_matrix_programs():
+  """Deterministic family: every parameter-list shape — 0-2 positional-only x 0-2 regular x (*args | bare * | none)
+  x 0-2 keyword-only x (**kwargs | none), defaults on a suffix of each group — as module-level functions and
+  methods, 18 per program."""
+  defs = []
+  k = 0
+  for npo in range(3):
+    for nre in range(3):
+      for star in ("", "*args", "*"):
+        for nkw in range(3):
+          if star == "*" and nkw == 0:
+            continue
+          if star == "" and nkw:
+            continue
+          for kw in (False, True):
+            parts = []
+            for i in range(npo):
+              parts.append("p%d%s" % (i, " = 1" if (k + i) % 3 == 0 and i == npo - 1 and nre == 0 else ""))
+            if npo:
+              parts.append("/")
+            for i in range(nre):
+              parts.append("r%d%s" % (i, ": int = 2" if i == nre - 1 and k % 2 else ""))
+            if star:
+              parts.append(star)
+            for i in range(nkw):
+              parts.append("k%d%s" % (i, ": str = 's'" if (k + i) % 2 else ""))
+            if kw:
+              parts.append("**kw")
+            k += 1
+            defs.append(", ".join(parts))
+  progs = []
+  for i in range(0, len(defs), 18):
+    out = ""
+    for j, d in enumerate(defs[i:i + 18]):
+      if j % 3 == 2:
+        out += "class M%d:\n  def m(self%s):\n    return 0\n" % (i + j, (", " + d) if d else "")
+      else:
+        out += "def f%d(%s):\n  return 0\n" % (i + j, d)
+    progs.append(out)
+  return progs
+
